@@ -495,7 +495,40 @@ class StmtMixin:
                 r = _root(n.args[0])
                 if r:
                     objs.add((r, None))
+        names |= self.hook_assigned_names(body)
         return names, objs
+
+    def hook_assigned_names(self, body):
+        """Ghost names assigned by a hook that can fire on a statement of this (loop) body: they change with the loop and
+        are havoced with it (a ghost left at its entry value would make the invariant speak about the first iteration only)."""
+        hooks = self.unit.hooks_for(self)
+        out = set()
+        if not hooks:
+            return out
+        stmts = [n for n in ast.walk(ast.Module(body=body, type_ignores=[])) if isinstance(n, ast.stmt)]
+        for (w, pat, code) in hooks:
+            hit = False
+            for s in stmts:
+                if pat.startswith("assign:"):
+                    spec = pat[7:]
+                    name = spec[:-5] if spec.endswith("@loop") else spec
+                    hit = isinstance(s, (ast.Assign, ast.AugAssign, ast.AnnAssign)) and any(
+                        isinstance(t, ast.Name) and t.id == name
+                        for t in (s.targets if isinstance(s, ast.Assign) else [s.target]))
+                elif pat.startswith("call:"):
+                    name = pat[5:].partition("#")[0]
+                    hit = isinstance(s, ast.Expr) and isinstance(s.value, ast.Call) and ast.unparse(s.value.func) == name
+                elif isinstance(s, ast.If):
+                    hit = ("if " + ast.unparse(s.test)) == pat
+                elif not isinstance(s, (ast.For, ast.While, ast.With, ast.Try, ast.FunctionDef)):
+                    hit = ast.unparse(s) == pat
+                if hit:
+                    break
+            if hit:
+                for x in ast.walk(self.unit.ghost_ast(code)):
+                    if isinstance(x, ast.Name) and isinstance(x.ctx, ast.Store):
+                        out.add(x.id)
+        return out
 
     def havoc(self, names, objs, spec):
         """Forget everything the loop body may change (values keep their kinds)."""
